@@ -213,9 +213,10 @@ def run(chk, tier, replay=None):
     n_asan = max(5, int((30 if quick else 600) * scale))
     inc, summary = generate()
     flavours = [("plain", "plain", n_plain, False), ("asan", "asan-exact", n_asan, True)]
-    if not quick and build.has_avx512():
+    if build.has_avx512():
+        # the ENABLE_AVX512 build (also used by C06) carries the *_avx512 variants; compared in both tiers
         flavours.append(("avx512", "avx512", n_plain, False))
-    elif not quick:
+    else:
         chk.extra["avx512"] = "host CPU without AVX-512: *_avx512 variants not compared"
     state = {"kernels": {}, "uncovered": {}, "seen": set(), "asan_marks": [], "errors": [], "not_on_host": set(),
              "seed": chk.seed, "exact": {}}
